@@ -65,6 +65,11 @@ CLAIMED = {
    note='PARTIAL at proof level by nature: SQLite/LMDB internals and power-loss durability are outside any Lean model; the proof is about the specification, the backends are tied to it by the correspondence run only. Out-of-contract calls (remove_tombstones on a live id) are not generated. Trusted: Lean kernel + standard axioms.',
    technique='differential refinement against a Lean reference model (theorems about the model: isolation, exact read-back)',
    ref='§8 C17'),
+ 'C18': dict(
+   text='Lean 4 theorems about a small-step interleaving machine of get_or_create_keyspace (lookup under the read lock, spawn without lock, insert under the write lock, one mutation through the obtained mailbox): one_state - for EVERY number of tasks and EVERY schedule (any list of task ids) every task that obtained a mailbox obtained the one registered in the map, and every mutation whose send completed is in the set of that instance; same_instance; negation witness legacy_race for the pinned unconditional insert (D7). Tied to the code by running the real KeyspaceGroup under deterministic yield schedules on a current_thread runtime and under 2/8-worker runtimes.',
+   note='PARTIAL where the truth is in the runtime: lock and mailbox semantics of parking_lot/puppet are assumed; the correspondence is outcome-level (the theorem makes the outcome schedule-independent). Trusted: Lean kernel + standard axioms (grind used in the invariant step).',
+   technique='Lean 4 proof (invariant over all interleavings of a small-step machine) + outcome-level correspondence on real runtimes',
+   ref='§8 C18'),
 }
 NA_REASON = 'check not built yet (work in progress; see DESIGN.md section 8)'
 
